@@ -14,6 +14,7 @@ import (
 	"io"
 	"log"
 	"net/netip"
+	"os"
 	"reflect"
 	"runtime"
 	"sort"
@@ -37,21 +38,26 @@ func TestVerifParallel(t *testing.T) {
 	if verifh.Thorough() {
 		rounds = 5
 	}
+	// VERIF_PAR selects the sections (each property runs the one that concerns it); empty = all
+	sel := os.Getenv("VERIF_PAR")
+	want := func(id, section string) bool {
+		return out.Wants(id) && (sel == "" || strings.Contains(sel, section))
+	}
 
 	// ---- (a) workers: once stop() has returned nothing is in flight and nothing starts any more
-	if out.Wants("par-workers") {
+	if want("par-workers", "workers") {
 		var viol string
-		n := 4000 * rounds
+		n := 1500 * rounds
 		for r := 0; r < n && viol == ""; r++ {
 			var ws workers
-			var active, lateStart atomic.Int64
+			var active, lateStart, starts atomic.Int64
 			var stopped atomic.Bool
 			var wg sync.WaitGroup
 			for g := 0; g < 3; g++ {
 				wg.Add(1)
 				go func() {
 					defer wg.Done()
-					for i := 0; i < 50; i++ {
+					for i := 0; i < 400; i++ {
 						if !ws.start() {
 							return
 						}
@@ -59,13 +65,14 @@ func TestVerifParallel(t *testing.T) {
 							lateStart.Add(1)
 						}
 						active.Add(1)
-						runtime.Gosched()
+						starts.Add(1)
 						active.Add(-1)
 						ws.done()
 					}
 				}()
 			}
-			if r%3 == 0 {
+			// stop while the workers are busy starting and finishing transmissions
+			for k := int64(1 + r%40); starts.Load() < k; {
 				runtime.Gosched()
 			}
 			ws.stop()
@@ -82,7 +89,7 @@ func TestVerifParallel(t *testing.T) {
 	}
 
 	// ---- (b) several scrapes of one Metrics value at once, cold: each equals the sequential result
-	if out.Wants("par-scrapes") {
+	if want("par-scrapes", "scrapes") {
 		var viol string
 		for r := 0; r < 20*rounds && viol == ""; r++ {
 			var ifis []config.Interface
@@ -122,12 +129,12 @@ func TestVerifParallel(t *testing.T) {
 	}
 
 	// ---- (c) monitors of different interfaces at once, each hearing its own prefixes, with a scraper beside them
-	if out.Wants("par-monitors") {
+	if want("par-monitors", "monitors") {
 		var viol string
 		mem := metricslite.NewMemory()
 		mm := NewMetrics(mem, "verif", time.Time{}, nil, nil)
 		cctx := NewContext(nil, mm, nil)
-		const nm, per = 3, 1500
+		const nm, per = 3, 6000
 		var wg sync.WaitGroup
 		stop := make(chan struct{})
 		go func() {
@@ -137,6 +144,7 @@ func TestVerifParallel(t *testing.T) {
 					return
 				default:
 					mm.Series()
+					time.Sleep(200 * time.Microsecond)
 				}
 			}
 		}()
@@ -179,7 +187,7 @@ func TestVerifParallel(t *testing.T) {
 
 	// ---- (d) listeners of several interfaces share one Context: floods of invalid messages from distinct hosts on all of
 	// them at once, then one valid message each
-	if out.Wants("par-listeners") {
+	if want("par-listeners", "listeners") {
 		var viol string
 		mem := metricslite.NewMemory()
 		mm := NewMetrics(mem, "verif", time.Time{}, nil, nil)
